@@ -185,6 +185,10 @@ fn get_integer(buf: &mut Cursor<&[u8]>) -> Result<i64, Error> {
     let max_safe_digits = 18;
     let start = buf.position() as usize;
     let end = buf.get_ref().len() - 1;
+    if start > end {
+        // the sign was the last byte we have, wait for the digits
+        return Err(Error::Incomplete);
+    }
 
     let mut idx = start;
     let mut num: i64 = 0;
